@@ -802,6 +802,10 @@ impl Pool {
             return Err(Error::BadConfig);
         }
 
+        if let Some(ref plugins) = self.plugins {
+            plugins.validate()?;
+        }
+
         self.automatic_sharding_key = match &self.automatic_sharding_key {
             Some(key) => {
                 // No quotes in the key so we don't have to compare quoted
@@ -1014,6 +1018,25 @@ pub struct Plugins {
     pub table_access: Option<TableAccess>,
     pub query_logger: Option<QueryLogger>,
     pub prewarmer: Option<Prewarmer>,
+}
+
+impl Plugins {
+    pub fn validate(&self) -> Result<(), Error> {
+        if let Some(ref intercept) = self.intercept {
+            for (name, query) in intercept.queries.iter() {
+                // A column is described by its name and its type.
+                if query.schema.iter().any(|column| column.len() < 2) {
+                    error!(
+                        "intercept query {{ {} }}: every schema entry needs a column name and a data type",
+                        name
+                    );
+                    return Err(Error::BadConfig);
+                }
+            }
+        }
+
+        Ok(())
+    }
 }
 
 pub trait Plugin {
@@ -1533,6 +1556,10 @@ impl Config {
         if self.general.shutdown_timeout == 0 {
             error!("shutdown_timeout must be greater than 0");
             return Err(Error::BadConfig);
+        }
+
+        if let Some(ref plugins) = self.plugins {
+            plugins.validate()?;
         }
 
         // Validation for auth_query feature
